@@ -435,7 +435,7 @@ func (H) Generate(rng *simrt.Rand, prop, tier string) (any, simrt.Config) {
 			sc.Clock = append(sc.Clock, Op{K: "clk", V: v})
 		}
 	}
-	if (prop == "C15" || prop == "C12") && !sc.LatWin {
+	if (prop == "C15" || prop == "C12" || prop == "C03" && lifecycle && rng.Chance(0.5)) && !sc.LatWin {
 		nref := 1 + rng.Intn(6)
 		if prop == "C15" && rng.Chance(0.5) {
 			nref = 6 + rng.Intn(12) // a refresher that keeps running next to the streams' lifecycle calls
@@ -445,6 +445,16 @@ func (H) Generate(rng *simrt.Rand, prop, tier string) (any, simrt.Config) {
 				sc.Refresh = append(sc.Refresh, Op{K: "meta"})
 			} else {
 				sc.Refresh = append(sc.Refresh, Op{K: "size"})
+			}
+		}
+	}
+	if len(sc.Refresh) > 0 && lifecycle {
+		// a session that begins (Connect / Sync / ConnectError) just as the first
+		// periodic refresh creates the target's metadata leaves
+		for i := range sc.Streams {
+			if rng.Chance(0.5) {
+				first := Op{K: []string{"connect", "sync", "connerr"}[rng.Intn(3)]}
+				sc.Streams[i] = append([]Op{first}, sc.Streams[i]...)
 			}
 		}
 	}
@@ -1445,6 +1455,40 @@ targets:
 				}
 				if ls, ok := final[tg][gen.Key([]string{"meta", metadata.LatestTimestamp})]; ok && ls.content != fmt.Sprintf("int:%d", m.Latest) {
 					x.Violate("C15/latest-timestamp-leaf", "target %s after a refresh: leaf meta/latestTimestamp=%s, greatest accepted target timestamp is %d", tg, ls.content, m.Latest)
+				}
+			}
+		}
+	}
+	// Metadata leaves: whatever the periodic refresh and the streams' lifecycle
+	// calls did to one metadata leaf concurrently, a consumer of the feed ends
+	// up with the value the cache stores (the feed hands out live leaves, so
+	// announcements of overlapping writes converge on the stored value). Leaves
+	// that are also deleted (meta/connectError, by Connect) are left out: an
+	// update in flight and a delete of the same leaf by another goroutine can
+	// be announced in either order. Metadata the cache creates silently (Add)
+	// may be missing from the feed, so only this direction is demanded.
+	if len(sc.Readd) == 0 && len(sc.Admin) == 0 {
+		rpAll := cachemodel.Replay{}
+		for _, fr := range feed {
+			rpAll.Feed(fr.snap)
+		}
+		for _, tg := range sc.Targets {
+			snap, known := final[tg]
+			if !known {
+				continue
+			}
+			var keys []string
+			for k := range rpAll[tg] {
+				if cachemodel.IsMeta(k) && k != gen.Key([]string{"meta", metadata.ConnectError}) {
+					keys = append(keys, k)
+				}
+			}
+			sort.Strings(keys)
+			for _, k := range keys {
+				x.Oblige(1)
+				if ls, ok := snap[k]; !ok || ls.content != rpAll[tg][k] {
+					x.Violate("C03/feed-metadata-leaf-differs-from-cache", "at the end of the run the change feed says target %s has %s=%s, the cache stores %q (present=%v)", tg, gen.Show(k), rpAll[tg][k], ls.content, ok)
+					break
 				}
 			}
 		}
